@@ -28,6 +28,35 @@ CODES = {
 }
 
 
+# The exact codeword set (C06's title): each DMR block code is a shortened and / or parity-extended CYCLIC code, so its codewords
+# are exactly the multiples of a generator polynomial (ETSI TS 102 361-1 B.3.1 - B.3.5 give the matrices; the polynomials below
+# are the well-known generators of the Hamming (7,4) (15,11) (31,26), Golay (23,12) and quadratic-residue (17,9) codes those
+# matrices are built from, written down from knowledge of the codes, not read from the repository).  (g(x) as an int, number of
+# overall-parity bits appended).  A matrix entry changed so that (n, k, d) survive still changes the codeword set - and what is
+# sent on air no longer decodes on a standard receiver.
+ETSI_GENERATOR = {
+    "Hamming743": (0b1011, 0), "Hamming1393": (0b10011, 0), "Hamming15113": (0b10011, 0), "Hamming16114": (0b10011, 1),
+    "Hamming17123": (0b100101, 0), "Golay2087": (0xC75, 1), "QuadraticResidue1676": (0x139, 1),
+}
+
+
+def in_the_standard_code(vc, code, cw):
+    """cw (bit-likes, first bit = highest power): multiple of the code's generator polynomial, overall parity even"""
+    from spec.crc import poly_remainder_bits
+
+    g, ext = ETSI_GENERATOR[code]
+    w = g.bit_length() - 1
+    body = cw[:len(cw) - ext]
+    rem = poly_remainder_bits(body, g & ((1 << w) - 1), w)  # (c(x) x^w mod g = 0  <=>  c(x) mod g = 0: g has a constant term)
+    ok = [vc.eq(r, 0) for r in rem]
+    if ext:
+        par = 0
+        for b in cw:
+            par = b ^ par
+        ok.append(vc.eq(par, 0))
+    return vc.and_(*ok)
+
+
 def aslist(x):
     return x.tolist() if hasattr(x, "tolist") else list(x)
 
@@ -36,7 +65,7 @@ def _target(code, fn):
     return "okdmr.dmrlib.etsi.fec.hamming_common:HammingCommon." + fn
 
 
-@contract("BlockCode.generate", "okdmr.dmrlib.etsi.fec.hamming_common:HammingCommon.generate", ["C06", "C19", "C04"],
+@contract("BlockCode.generate", "okdmr.dmrlib.etsi.fec.hamming_common:HammingCommon.generate", ["C06", "C19", "C04", "C09", "C02"],
           note="also Golay2087.generate, QuadraticResidue1676.generate (same text, one shape per code)")
 def generate(vc, code):
     H, n, k, d = CODES[code]
@@ -46,6 +75,7 @@ def generate(vc, code):
     vc.prove("length_n", len(cw) == n)
     vc.prove("systematic", vc.eq(vc.mkbits(cw[:k]), m))
     vc.prove("output_passes_check", H.check(vc.mkbits(cw)))
+    vc.prove("codeword_belongs_to_the_standard_code", in_the_standard_code(vc, code, cw))
     vc.prove("frame_argument_unchanged", vc.eq(m, before))
     # lemma: minimum distance of the image >= advertised d.  Symbolically: the run above shows generate is the GF(2)-linear
     # map x -> G x with G read off the canonical forms (affine, zero constant), so distance = minimum weight of the 2^k - 1
